@@ -820,6 +820,8 @@ func cmdPipes(args []string) int {
 				fails, line = pipes.MultiBindScenario(sd)
 			} else if n, _ := fmt.Sscanf(l, "netpipe seed=%d", &sd); n == 1 {
 				fails, line = pipes.NetmachScenario(sd)
+			} else if n, _ := fmt.Sscanf(l, "autoremove seed=%d", &sd); n == 1 {
+				fails, line = pipes.AutoRemoveScenario(sd)
 			} else if n, _ := fmt.Sscanf(l, "bindany seed=%d", &sd); n == 1 {
 				fails, line = pipes.BindAnyScenario(sd)
 			} else if n, _ := fmt.Sscanf(l, "busytarget seed=%d", &sd); n == 1 {
